@@ -38,7 +38,7 @@ def spec_to_json(spec):
 
 def spec_from_json(j):
     n, lab, o, dsn, seed = j
-    return (n, lab, {k: (np.array(v) if isinstance(v, list) else v) for k, v in o.items()}, dsn, seed)
+    return (n, lab, zoo.retype(lab, {k: (np.array(v) if isinstance(v, list) else v) for k, v in o.items()}), dsn, seed)
 
 
 def run_case(spec):
